@@ -3,6 +3,7 @@ package kvql
 import (
 	"fmt"
 	"strings"
+	"unicode"
 )
 
 var (
@@ -114,6 +115,16 @@ func outputQueryAndErrPos(query string, pos int, adjust int) string {
 	qlen := len(tquery)
 	if pos == -1 {
 		pos = qlen
+	} else {
+		// pos is an offset in the original query text, the leading spaces
+		// are not displayed
+		pos -= len(query) - len(strings.TrimLeftFunc(query, unicode.IsSpace))
+		if pos < 0 {
+			pos = 0
+		}
+		if pos > qlen {
+			pos = qlen
+		}
 	}
 	trimLeft := false
 	trimRight := false
